@@ -1,5 +1,8 @@
 import Glom.Lemmas.C17
 import Glom.Lemmas.C17Source
+import Glom.Lemmas.C17Streams
+import Glom.Lemmas.C17Lazy
+import Glom.Lemmas.C17Boltons
 import Glom.Model.C17Env
 /-
   C17 — Iter pipelines equal the itertools composition, stay lazy, never mutate specs.
@@ -11,12 +14,14 @@ import Glom.Model.C17Env
   (stack newest-first, callbacks folded in reversed stack order, `_iterate`'s
   SKIP / STOP / sentinel branches, `_add_op` / `Invoke.*` copy-on-write — the
   shape facts are re-extracted on every run and discharged by `c17_facts_wf`).
-  What the *callbacks* do — `islice`, `takewhile`, `dropwhile`, `chain`, and
-  boltons' `chunked_iter`, `windowed_iter`, `split_iter`, `unique_iter`,
-  `first` — is external code modelled from its documentation and observed
-  behaviour; only the correspondence validates it.  The full statement
-  ("the real iterator objects of CPython / boltons behave like these
-  transducers") is not provable here.
+  What the *callbacks* do: boltons' `chunked_iter`, `windowed_iter`, `split_iter`,
+  `unique_iter` are transcribed from their source (`Model/C17Boltons.lean`) and proved
+  to yield the traces of the transducers (`c17_boltons_*`; the transcription is run against
+  the installed boltons by the correspondence); `islice`, `takewhile`, `dropwhile`,
+  `chain`, `tee`, `zip`, `map`, `filter` are C code of CPython, modelled from their
+  documentation and observed behaviour — only the correspondence validates those.  The full
+  statement ("the real iterator objects of CPython behave like these transducers") is not
+  provable here.
 
   Every theorem is for all stage lists of any length, all user functions
   `V → Except Err V`, all sources (finite, finite-then-raising, infinite), all
@@ -33,7 +38,9 @@ open Glom.C17
     `_iterate` continues on SKIP and returns on the sentinel / STOP before yielding, and
     uses the iterator of the target as the iterable of its `for` loop and for nothing else;
     `glomit` folds the callbacks in `reversed(self._iter_stack)` order; every builder
-    method's callback calls the iterator function the model gives it. -/
+    method's callback calls the iterator function the model gives it, and no callback (no function
+    nested in a builder method) writes a variable of the method's frame — the stage state is
+    the stream's (`c17_stream_isolation`), none is kept per spec (`c17_shared_state_counterexample`). -/
 theorem c17_facts_wf : genFacts.WF = true := by decide
 
 /-! ### chaining order -/
@@ -63,6 +70,37 @@ theorem c17_sentinel_lost_without_forward_counterexample :
     let src : Src := .fin [.int 1, .int 2, .int 0, .int 3] none
     ((runAll (it.addOp false e).kinds src 20).items == [V.int 1, .int 2, .int 0, .int 3]) = true ∧
     ((runAll (it.addOp true e).kinds src 20).items == [V.int 1, .int 2]) = true := by
+  decide
+
+/-! ### the sentinel is an object -/
+
+/-- **`_iterate` stops at THE sentinel, not at its equals.**  Whatever the subspec returns
+    for an item: the stream ends there iff that value *is* the sentinel object (`V.is`);
+    every other value — equal to the sentinel or not — is yielded.  Three relations are kept
+    apart: `1.0` and `True` are not `1` (`is`), they are equal to `1` (`==`: `split(sep=1)`
+    splits at them), and a set holds one of them (`unique`). -/
+theorem c17_sentinel_is_identity (sub : BaseFn) (s v x : V) (h : sub x = .ok (.val v)) :
+    ((Core.init (.base sub (some s))).push x).1 = (if v.is s then [] else [v]) ∧
+    (v.is s = true → (foldCore (Core.init (.base sub (some s))) [x] .more).term = .eof) ∧
+    (v.is s = false → ∀ us t, foldCore (Core.init (.base sub (some s))) (x :: us) t =
+      (foldCore (Core.init (.base sub (some s))) us t).prepend [v]) := by
+  refine ⟨?_, ?_, ?_⟩
+  · by_cases hv : v.is s = true <;> simp [Core.push, Core.init, h, hv]
+  · intro hv; simp [foldCore, Core.push, Core.init, h, hv]
+  · intro hv us t; simp [foldCore, Core.push, Core.init, h, hv]
+
+/-- the numeric twins, an equal string and an equal tuple built elsewhere are not the sentinel;
+    the sentinel object itself is (whatever its value), and so are CPython's one-object-per-value
+    values; `==` and set membership see the twins as equal -/
+theorem c17_twins_are_not_the_sentinel :
+    (V.flt 1).is (.int 1) = false ∧ (V.bool true).is (.int 1) = false ∧ (V.int 1).is (.int 1) = true ∧
+    (V.int 1000).is (.int 1000) = false ∧ (V.str "ab").is (.str "ab") = false ∧
+    (V.ref 1 (.str "ab")).is (.ref 1 (.str "ab")) = true ∧ (V.ref 1 (.str "ab")).is (.ref 2 (.str "ab")) = false ∧
+    (V.tup [.int 1]).is (.tup [.int 1]) = false ∧ (V.tup []).is (.tup []) = true ∧ (V.ref 7 (.obj 1)).is (.int 1) = false ∧
+    (match (V.flt 1).pyEqAtom (.int 1), (V.bool true).pyEqAtom (.int 1), (V.ref 7 (.obj 1)).pyEqAtom (.int 1) with
+      | .ok true, .ok true, .ok true => true | _, _, _ => false) = true ∧
+    ((V.flt 1).key == (V.int 1).key && (V.bool true).key == (V.int 1).key &&
+      (V.tup [.flt 1]).key == (V.tup [.bool true]).key && !((V.ref 7 (.obj 1)).key == (V.int 1).key)) = true := by
   decide
 
 /-! ### semantics -/
@@ -295,6 +333,145 @@ theorem c17_first_terminates (kinds : List Kind) (hw : ∀ k ∈ kinds, k.wf = t
   obtain ⟨F, hF⟩ := runFirst_terminates src N kinds key hw hpa href
   exact ⟨F, fun fuel hf => runFirst_spec src fuel kinds key (hF fuel hf)⟩
 
+/-! ### laziness in closed form -/
+
+/-- **How much lookahead each stage has**, for the stages whose lookahead does not depend on the
+    data: for `n` outputs (or its end) the stage needs at most this many items of its input —
+    `Iter(subspec)` without SKIP, `map`, `takewhile`: `n`;  `chunked(size)`: `n * size`;
+    `windowed(size)`: `n + size - 1`;  `slice(start, stop, step)` / `limit`: `start + (n-1)*step + 1`.
+    (`filter`, `dropwhile`, `unique`, `split`, `flatten` and a subspec that answers SKIP have no
+    such bound: a run of rejected items can be arbitrarily long — `c17_lazy` is the statement for them.) -/
+theorem c17_stage_lookahead (sub : BaseFn) (s : Option V) (hns : NoSkip sub) (f : Fn) (size a step : Nat)
+    (fill : Option V) (stop : Option Nat) (hsize : 1 ≤ size) (hstep : 1 ≤ step) :
+    StageBound (.base sub s) id ∧ StageBound (.map f) id ∧ StageBound (.takewhile f) id ∧
+    StageBound (.chunked size fill) (· * size) ∧
+    StageBound (.windowed size) (fun n => if n = 0 then 0 else n + size - 1) ∧
+    StageBound (.slice a stop step) (fun n => if n = 0 then 0 else a + (n - 1) * step + 1) :=
+  ⟨stageBound_base sub s hns, stageBound_map f, stageBound_takewhile f, stageBound_chunked size fill hsize,
+   stageBound_windowed size hsize, stageBound_slice a stop step hstep⟩
+
+/-- **Laziness of a composition, in closed form (`c17_lazy_closed_form`).**  When every stage of a
+    pipeline has a lookahead bound (`bs`, stage by stage), then on EVERY source — finite,
+    raising, infinite — `take k` terminates and pulls at most `N` source items, for any `N`
+    that covers the composed bound `b₁ (b₂ (… (bₘ k)))` and, for every `windowed` stage, what
+    the stages below it need to hand it its first `size - 1` items while `glomit` runs. -/
+theorem c17_lazy_closed_form (kinds : List Kind) (hw : ∀ k ∈ kinds, k.wf = true) (bs : List (Nat → Nat))
+    (hb : StageBounds kinds bs) (src : Src) (k N : Nat) (hN : pipeBound bs k ≤ N)
+    (hprime : ∀ b k' a, kinds = b ++ k' :: a → pipeBound (bs.take b.length) k'.primeCount ≤ N) :
+    ∃ F, ∀ fuel, F ≤ fuel →
+      (runTake kinds src fuel k).fin ≠ .oof ∧ (runTake kinds src fuel k).pulls ≤ N := by
+  apply c17_infinite_sources kinds hw src N k
+  · intro b k' a hk
+    have htake : kinds.take b.length = b := by rw [hk]; simp
+    have hsb := stageBounds_take kinds bs hb b.length
+    rw [htake] at hsb
+    simp only [List.nil_append, det]
+    exact pipeBound_answers b _ hsb _ _ (answers_mono (pfx_answers src N) (hprime b k' a hk))
+  · exact pipeBound_answers kinds bs hb _ _ (answers_mono (pfx_answers src N) hN)
+
+/-! ### boltons' helpers, as written, are the stages
+
+  `Model/C17Boltons.lean` transcribes `unique_iter`, `chunked_iter`, `split_iter` and
+  `windowed_iter` from boltons' source, statement by statement, as generators over an upstream
+  iterator (the `for` loops with their `continue`s, `list(islice(src_iter, size))`, the
+  `seen` set, `cur_group` / `split_count`, `itertools.tee` with its shared buffer and
+  `zip(*tees)`); the correspondence runs them against the installed boltons.  Here: on every
+  finite upstream — ending normally or by raising — each of them yields exactly the trace of
+  the transducer the C17 theorems are about (same items, same end, same exception), hence
+  (with `stage_ref`) the list function; and how far each `next()` moves the upstream. -/
+
+open Glom.C17.Boltons in
+theorem c17_boltons_unique (xs : List V) (tail : Option Err) (key : Fn) (fuel n : Nat)
+    (hf : xs.length < fuel) (hn : xs.length < n) :
+    collect (uniqueNext (.fin xs tail) key fuel) n ⟨0, [], false⟩ [] =
+      ((stageTr (.unique key) ⟨xs, termOf tail⟩).items, resOf (stageTr (.unique key) ⟨xs, termOf tail⟩).term) := by
+  have := unique_collect xs tail key fuel hf n ⟨0, [], false⟩ [] rfl (by simp; omega)
+  simpa [stageTr, Kind.initStopped, uniqueCore, Core.init] using this
+
+open Glom.C17.Boltons in
+/-- … and one `next()` of `chunked_iter` pulls at most `size` items -/
+theorem c17_boltons_chunked (xs : List V) (tail : Option Err) (size : Nat) (fill : Option V) (hsize : 1 ≤ size) (n : Nat)
+    (hn : xs.length < n) :
+    collect (chunkedNext (.fin xs tail) size fill) n ⟨0, false⟩ [] =
+      ((stageTr (.chunked size fill) ⟨xs, termOf tail⟩).items, resOf (stageTr (.chunked size fill) ⟨xs, termOf tail⟩).term) ∧
+    ∀ g : ChunkedGen, g.finished = false →
+      (chunkedNext (.fin xs tail) size fill g).2.pos ≤ g.pos + size := by
+  constructor
+  · have := chunked_collect xs tail size fill hsize n ⟨0, false⟩ [] rfl (by simp; omega)
+    simpa [stageTr, Kind.initStopped, chunkCore, Core.init] using this
+  · intro g hg
+    simp only [chunkedNext, hg, Bool.false_eq_true, ↓reduceIte]
+    rw [isliceList_fin xs tail size g.pos [] (xs.drop g.pos) rfl]
+    by_cases hle : size ≤ (xs.drop g.pos).length
+    · simp only [hle, ↓reduceIte]; split <;> simp_all
+    · simp only [hle, ↓reduceIte]
+      have : (xs.drop g.pos).length < size := by omega
+      cases tail with
+      | none => simp only; split <;> simp_all <;> omega
+      | some e => simp only; omega
+
+open Glom.C17.Boltons in
+theorem c17_boltons_split (xs : List V) (tail : Option Err) (sep : Sep) (m : Option Nat) (fuel n : Nat)
+    (hf : xs.length < fuel) (hn : xs.length + 1 < n) :
+    collect (splitNext (.fin xs tail) sep m fuel) n ⟨0, [], 0, false⟩ [] =
+      ((stageTr (.split sep m) ⟨xs, termOf tail⟩).items, resOf (stageTr (.split sep m) ⟨xs, termOf tail⟩).term) := by
+  have := split_collect xs tail sep m fuel hf n ⟨0, [], 0, false⟩ [] rfl (by simp; omega)
+  simpa [stageTr, Kind.initStopped, splitCore, Core.init] using this
+
+open Glom.C17.Boltons in
+/-- `windowed_iter` is a plain function: calling it (which `glomit` does) staggers the tees, which pulls
+    `size - 1` items — all there are, when there are fewer — and raises what the source raises
+    meanwhile; after that `zip(*tees)` yields the windows -/
+theorem c17_boltons_windowed (xs : List V) (tail : Option Err) (size : Nat) (hsize : 1 ≤ size) :
+    match windowedInit (.fin xs tail) 0 size with
+    | .ok g =>
+      g.pos = min (size - 1) xs.length ∧
+      ∀ n, xs.length < n → collect (windowedNext (.fin xs tail)) n g [] =
+        ((stageTr (.windowed size) ⟨xs, termOf tail⟩).items, resOf (stageTr (.windowed size) ⟨xs, termOf tail⟩).term)
+    | .error (e, p) => p = xs.length ∧ stageTr (.windowed size) ⟨xs, termOf tail⟩ = ⟨[], .err e⟩ := by
+  have := windowed_collect xs tail size hsize
+  revert this
+  cases windowedInit (.fin xs tail) 0 size with
+  | ok g => intro h; simpa [stageTr, Kind.initStopped, winCore, Core.init] using h
+  | error ep => intro h; simpa [stageTr, Kind.initStopped, winCore, Core.init] using h
+
+open Glom.C17.Boltons in
+/-- **The stage laws, of the code as written**: on an upstream `xs` that ends normally, the four
+    generators yield what the list functions `uniqueE`, `chunkedL`, `splitE`, `windowedL` give. -/
+theorem c17_boltons_stage_laws (k : Kind) (hw : k.wf = true) (xs ys : List V) (h : refE k xs = .ok ys) (fuel n : Nat)
+    (hf : xs.length < fuel) (hn : xs.length + 1 < n) :
+    (∀ key, k = .unique key → collect (uniqueNext (.fin xs none) key fuel) n ⟨0, [], false⟩ [] = (ys, .eof)) ∧
+    (∀ size fill, k = .chunked size fill → collect (chunkedNext (.fin xs none) size fill) n ⟨0, false⟩ [] = (ys, .eof)) ∧
+    (∀ sep m, k = .split sep m → collect (splitNext (.fin xs none) sep m fuel) n ⟨0, [], 0, false⟩ [] = (ys, .eof)) ∧
+    (∀ size, k = .windowed size → ∃ g, windowedInit (.fin xs none) 0 size = .ok g ∧
+      collect (windowedNext (.fin xs none)) n g [] = (ys, .eof)) := by
+  have href := stage_ref k hw xs ys h
+  refine ⟨?_, ?_, ?_, ?_⟩
+  · intro key hk; subst hk
+    rw [c17_boltons_unique xs none key fuel n hf (by omega)]
+    simp only [termOf, href, resOf]
+  · intro size fill hk; subst hk
+    have hsize : 1 ≤ size := by simpa [Kind.wf] using hw
+    rw [(c17_boltons_chunked xs none size fill hsize n (by omega)).1]
+    simp only [termOf, href, resOf]
+  · intro sep m hk; subst hk
+    rw [c17_boltons_split xs none sep m fuel n hf hn]
+    simp only [termOf, href, resOf]
+  · intro size hk; subst hk
+    have hsize : 1 ≤ size := by simpa [Kind.wf] using hw
+    have hwin := c17_boltons_windowed xs none size hsize
+    revert hwin
+    cases windowedInit (.fin xs none) 0 size with
+    | ok g =>
+      intro ⟨_, hc⟩
+      refine ⟨g, rfl, ?_⟩
+      rw [hc n (by omega)]
+      simp only [termOf, href, resOf]
+    | error ep =>
+      intro ⟨_, he⟩
+      simp only [termOf, href] at he
+      cases he
+
 /-! ### the source after a run -/
 
 /-- **Source remainder (`c17_source_remainder`).**  For every stage composition, every source
@@ -363,6 +540,64 @@ theorem c17_resume (src : Src) (p q : Nat) (hpq : p ≤ q)
   obtain ⟨h1, h2, h3, j, h4, h5⟩ := takeK_agree (srcAgree_without src p q hpq hlen) fuel k sts 0 acc
   simp only [Nat.add_zero] at h1 h2 h3 h4 h5
   exact ⟨h1, h2, h3, by omega⟩
+
+/-! ### several live streams: every stream owns its state -/
+
+/-- **`glomit` allocates, it never writes.**  Opening a stream (any spec, any source, any
+    world of live streams) leaves every existing stage-state cell as it was: the new stream's
+    cells are new. -/
+theorem c17_open_allocates (srcs : List Src) (fuel : Nat) (w : World) (id : Nat) (kinds : List Kind) (si : Nat) :
+    ∀ a, a < w.heap.length →
+      (w.step srcs fuel (.open id kinds si)).1.heap.getD a default = w.heap.getD a default := by
+  intro a ha
+  cases hl : w.streams id with
+  | some s => rw [step_open_some srcs fuel w id kinds si s hl]
+  | none =>
+    rw [step_open_none srcs fuel w id kinds si hl]
+    cases construct (srcs.getD si (.fin [] none)) fuel kinds [] (w.pos si) with
+    | ok sts pos' => simp [World.afterOpen, List.getD_eq_getElem?_getD, List.getElem?_append_left ha]
+    | err e pos' => rfl
+    | oof => rfl
+
+/-- **Stream isolation (`c17_stream_isolation`).**  Any number of live streams — made from the
+    same spec object, from specs derived from it, from any specs — each reading the source
+    that belongs to it (`own`), opened, pulled, run to their end (`all()` / `first()`) in ANY
+    order (`sched`, of any length): what stream `i` yields, event by event, and what it is
+    afterwards (its stage states, the position of its source, ended or not) is exactly what
+    it yields and is when the events of stream `i` are run ALONE.  Proved by induction over
+    the schedule, from any two well-formed worlds in which stream `i` is the same thing. -/
+theorem c17_stream_isolation_general (own : Nat → Nat) (hinj : ∀ a b, own a = own b → a = b)
+    (srcs : List Src) (fuel : Nat) (i : Nat) (sched : List Ev) (w1 w2 : World)
+    (hw1 : w1.WF) (hw2 : w2.WF) (ho1 : w1.Owns own) (ho2 : w2.Owns own)
+    (hs : ∀ e ∈ sched, e.srcOk own) (ha : World.Agree own i w1 w2) :
+    (w1.run srcs fuel sched).2.filter (·.1 == i) = (w2.run srcs fuel (sched.filter (·.id == i))).2 ∧
+    World.Agree own i (w1.run srcs fuel sched).1 (w2.run srcs fuel (sched.filter (·.id == i))).1 :=
+  run_isolated own hinj srcs fuel i sched w1 w2 hw1 hw2 ho1 ho2 hs ha
+
+/-- … from the start: every stream of every schedule equals its solo run -/
+theorem c17_stream_isolation (own : Nat → Nat) (hinj : ∀ a b, own a = own b → a = b)
+    (srcs : List Src) (fuel : Nat) (sched : List Ev) (hs : ∀ e ∈ sched, e.srcOk own) (i : Nat) :
+    (World.empty.run srcs fuel sched).2.filter (·.1 == i) =
+      (World.empty.run srcs fuel (sched.filter (·.id == i))).2 ∧
+    (World.empty.run srcs fuel sched).1.view i =
+      (World.empty.run srcs fuel (sched.filter (·.id == i))).1.view i :=
+  let r := run_isolated own hinj srcs fuel i sched World.empty World.empty World.empty_wf World.empty_wf
+    (fun _ _ h => by simp [World.empty] at h) (fun _ _ h => by simp [World.empty] at h) hs ⟨rfl, rfl⟩
+  ⟨r.1, r.2.1⟩
+
+/-- the invariants behind it hold along every schedule: cells in bounds, no cell owned twice -/
+theorem c17_streams_own_their_cells (srcs : List Src) (fuel : Nat) (sched : List Ev) :
+    (World.empty.run srcs fuel sched).1.WF :=
+  run_wf srcs fuel sched World.empty World.empty_wf
+
+/-- **The solo run is the `take`**: a stream that was opened at the start of its source and
+    asked `k` times (with whatever else going on in between, by `c17_stream_isolation`) has
+    yielded `take k` of its pipeline — `takeK`, the function all semantics and laziness
+    theorems above are about; one more `next` is one more item of the same `take`. -/
+theorem c17_next_extends_take (src : Src) (fuel k : Nat) (sts0 : List StageSt) (pos0 : Nat) (items : List V) (p : Nat)
+    (sts : List StageSt) (h : takeK src fuel k sts0 pos0 [] = (⟨items, .gotK, p⟩, sts)) :
+    takeK src fuel (k + 1) sts0 pos0 [] = afterPull items (pullFrom src fuel sts p) :=
+  takeK_snoc src fuel k sts0 pos0 [] items p sts h
 
 /-! ### builders -/
 
@@ -469,6 +704,20 @@ theorem c17_model_checks_steps_partial (fuel : Nat) (xs : List V) (tail : Option
       ((modelSteps fuel (.fin xs tail) pipes steps pos live).map StepOut.obs) pos mem = true :=
   checkSteps_fresh fuel xs tail pipes steps pos live mem hfresh hfuel
 
+/-- **The stream checker on the model** — the form in which stream isolation is evaluated on the
+    implementation: for every schedule of `open` / `next` / `all` / `first` events over any
+    number of streams, each on the (finite) source that belongs to it, the observations of the
+    heap model pass `checkStreams`: after every event, what the stream has yielded so far is
+    a `take` of the composition of ITS stages over ITS source alone, and no more of its
+    source was pulled than that needs. -/
+theorem c17_model_checks_streams (own : Nat → Nat) (hinj : ∀ a b, own a = own b → a = b)
+    (srcsFin : List (List V × Option Err)) (fuel : Nat) (sched : List Ev) (hs : ∀ e ∈ sched, e.srcOk own)
+    (hfuel : ∀ o ∈ (World.empty.run (srcsOfFin srcsFin) fuel sched).2, o.2.isOof = false) :
+    checkStreams srcsFin sched ((World.empty.run (srcsOfFin srcsFin) fuel sched).2.map (fun o => o.2.obs))
+      (fun _ => none) = true :=
+  checkStreams_model own hinj srcsFin fuel sched World.empty (fun _ => none) World.empty_wf
+    (fun _ _ h => by simp [World.empty] at h) hs (streamInv_empty own srcsFin fuel) hfuel
+
 /-- builder purity in the checker's form: a model run of the prefix spec before and after
     deriving from it, and of the derived spec against the freshly built one, is the same run -/
 theorem c17_model_checks_reuse (o o' : TakeObs) : checkReuse true o o o' o' = true := by
@@ -542,6 +791,88 @@ example : (match (Src.inf (fun n => V.int n)) with | .fin xs _ => 1 ≤ xs.lengt
 example : (match composeE [.base idBase none, .split (.fn odd) none] [.int 2, .int 1, .int 4, .int 6, .int 3] with
     | .ok ys => ys == [.list [.int 2], .list [.int 4, .int 6], .list []]
     | .error _ => false) = true := by decide
+-- `c17_lazy_closed_form` on `Iter().map(inc).chunked(2).windowed(3)`: `k` windows need `2 * (k + 2)` source items
+private def lazyKinds : List Kind := [.base idBase none, .map inc, .chunked 2 none, .windowed 3]
+private def lazyBounds : List (Nat → Nat) := [id, id, (· * 2), fun n => if n = 0 then 0 else n + 3 - 1]
+example : StageBounds lazyKinds lazyBounds :=
+  .cons (stageBound_base idBase none (fun x => by simp [idBase])) (.cons (stageBound_map inc)
+    (.cons (stageBound_chunked 2 none (by omega)) (.cons (stageBound_windowed 3 (by omega)) .nil)))
+example : pipeBound lazyBounds 1 = 6 ∧ pipeBound lazyBounds 4 = 12 ∧ pipeBound (lazyBounds.take 3) 2 = 4 := by decide
+-- … and the bound is met: exactly 6 and 12 items of an infinite source are pulled (4 of them while `glomit` runs)
+example : ((runTake lazyKinds nat 60 1).pulls == 6 && (runTake lazyKinds nat 60 4).pulls == 12 &&
+    (runTake lazyKinds nat 60 0).pulls == 4) = true := by decide
+-- without `NoSkip` there is no bound: `Iter(lambda x: SKIP if x < 9 else x)` pulls ten items for one output
+example : ((runTake [.base (fun x => match x with | .int i => if i < 9 then .ok .skip else .ok (.val x) | _ => .ok (.val x)) none]
+    nat 60 1).pulls == 10) = true := by decide
+-- `c17_sentinel_is_identity` in a run: `Iter(sentinel=1)` over `0, 1.0, True, <equal to everything>, 1, 5` yields the
+-- first four items and stops at the `1`; a design that compared with `==` would have yielded `0` only
+example : ((runAll [.base idBase (some (.int 1))]
+    (.fin [.int 0, .flt 1, .bool true, .ref 9 (.obj 1), .int 1, .int 5] none) 30).items
+    == [.int 0, .flt 1, .bool true, .ref 9 (.obj 1)]) = true := by decide
+-- the boltons generators, run: `chunked_iter(it, 2, fill=0)` on five items, `windowed_iter(it, 3)` (two items are
+-- pulled by the call itself, one per window afterwards — also on an infinite source), `split_iter(it, sep=0, maxsplit=1)`
+private def five : List V := [.int 1, .int 2, .int 3, .int 4, .int 5]
+open Glom.C17.Boltons in
+example : (match collect (chunkedNext (.fin five none) 2 (some (.int 0))) 9 ⟨0, false⟩ [] with
+    | (ys, .eof) => ys == [.list [.int 1, .int 2], .list [.int 3, .int 4], .list [.int 5, .int 0]]
+    | _ => false) = true := by decide
+open Glom.C17.Boltons in
+example : (match windowedInit (.fin five none) 0 3 with
+    | .ok g => g.pos == 2 && (match collect (windowedNext (.fin five none)) 9 g [] with
+      | (ys, .eof) => ys == [.tup [.int 1, .int 2, .int 3], .tup [.int 2, .int 3, .int 4], .tup [.int 3, .int 4, .int 5]]
+      | _ => false)
+    | .error _ => false) = true := by decide
+open Glom.C17.Boltons in
+example : (match windowedInit nat 0 3 with
+    | .ok g => g.pos == 2 && (windowedNext nat g).2.pos == 3
+    | .error _ => false) = true := by decide
+open Glom.C17.Boltons in
+example : (match collect (splitNext (.fin [.int 1, .int 0, .int 2, .int 0, .int 3] none) (.scalar (.int 0)) (some 1) 20) 9
+      ⟨0, [], 0, false⟩ [] with
+    | (ys, .eof) => ys == [.list [.int 1], .list [.int 2, .int 0, .int 3]]
+    | _ => false) = true := by decide
+-- hypothesis `1 ≤ size` of `c17_boltons_chunked` is forced: `islice(it, 0)` is always empty, `chunked_iter(it, 0)`
+-- as written ends at once (boltons rejects size 0 before) while the transducer would yield `[x]` chunks
+open Glom.C17.Boltons in
+example : (match collect (chunkedNext (.fin five none) 0 none) 9 ⟨0, false⟩ [] with | (ys, .eof) => ys.isEmpty | _ => false) = true ∧
+    ((stageTr (.chunked 0 none) ⟨five, .eof⟩).items.length == 5) = true := by decide
+-- `c17_stream_isolation` / `c17_model_checks_streams`: two streams of ONE spec `Iter().unique()`, pulled alternately
+private def uniqKinds : List Kind := [.base idBase none, .unique (fun x => .ok x)]
+private def srcA : List V := [.int 1, .int 1, .int 2, .int 1, .int 3]
+private def srcB : List V := [.int 5, .int 5, .int 1, .int 6]
+private def zipSched : List Ev :=
+  [.open 0 uniqKinds 0, .open 1 uniqKinds 1, .next 0, .next 1, .next 0, .next 1, .next 1, .next 1]
+private def outInt : EvOut → Option Int
+  | .item (.int i) _ => some i
+  | _ => none
+-- the hypotheses are met: every event on the source that belongs to its stream (`own = id`), enough fuel
+example : ∀ e ∈ zipSched, e.srcOk id := by
+  intro e he
+  simp only [zipSched, List.mem_cons, List.not_mem_nil, or_false] at he
+  rcases he with rfl | rfl | rfl | rfl | rfl | rfl | rfl | rfl <;> simp [Ev.srcOk]
+example : ((World.empty.run [.fin srcA none, .fin srcB none] 30 zipSched).2.all (fun o => !o.2.isOof)) = true := by decide
+-- stream 1 yields 5, 1, 6 and then ends — what `Iter().unique()` yields on `5 5 1 6` alone
+example : ((World.empty.run [.fin srcA none, .fin srcB none] 30 zipSched).2.filter (·.1 == 1)).map (outInt ·.2)
+    = [none, some 5, some 1, some 6, none] := by decide
+/-- **Why the state must be the stream's, not the spec's** (counter-example without ownership).
+    The other design — one set of stage cells per *spec*, re-initialised whenever a stream starts
+    ("the spec keeps a single set of seen keys which is emptied whenever a new stream starts") —
+    is indistinguishable as long as streams run one after the other, and wrong as soon as two are
+    alive: on the schedule above the second stream of `Iter().unique()` loses its `1`, because the
+    first stream has seen a `1`. -/
+theorem c17_shared_state_counterexample :
+    let srcs : List Src := [.fin srcA none, .fin srcB none]
+    let w0 : World := ⟨[default, default], fun _ => 0, fun _ => none⟩
+    let w1 := (w0.openShared srcs 30 0 uniqKinds 0 [0, 1]).1
+    let w2 := (w1.openShared srcs 30 1 uniqKinds 1 [0, 1]).1
+    let sched : List Ev := [.next 0, .next 1, .next 0, .next 1, .next 1, .next 1]
+    -- state per spec: stream 1 yields 5, 6
+    ((w2.run srcs 30 sched).2.filter (·.1 == 1)).map (outInt ·.2) = [some 5, some 6, none, none] ∧
+    -- state per stream (the model of the code): 5, 1, 6 — its solo run
+    ((World.empty.run srcs 30 zipSched).2.filter (·.1 == 1)).map (outInt ·.2) = [none, some 5, some 1, some 6, none] ∧
+    -- one stream at a time the two designs agree
+    ((w1.run srcs 30 [.next 0, .next 0, .next 0, .next 0]).2.map (outInt ·.2)) = [some 1, some 2, some 3, none] := by
+  decide
 -- a heap with a re-used prefix spec (hypotheses of `c17_builder_pure`)
 example : (BHeap.mk [] []).wf := by intro i o h; simp at h
 
